@@ -216,7 +216,9 @@ class _AbstractSampler(_ABC):
             runtime = (self.end_time - self.start_time).total_seconds()
             run_details["local start time (not timezone aware)"] = self.start_time
             run_details["runtime (seconds)"] = runtime
-            run_details["proposals per seconds"] = proposed_samples / runtime
+            run_details["proposals per seconds"] = (
+                proposed_samples / runtime if proposed_samples is not None else None
+            )
         written_samples = (
             self.current_proposal_after_thinning + 1
             if self.current_proposal_after_thinning > 0
